@@ -144,15 +144,51 @@ def handleCore (cli : Bool) (op : String) (f : List String) : Verdict :=
       else match m with
         | .error _ =>
           if valid && dA != dT then ⟨.tie, tags, "the refused graft changed the tree"⟩ else ⟨.pass, "rejected" :: tags, ""⟩
-        | .ok _ => if valid then ⟨.tie, tags, "model accepts, implementation fails"⟩ else ⟨.pass, "skip-dupnames" :: tags, ""⟩
+        | .ok _ =>
+          if valid then ⟨.oracle, tags, "graft refused at an existing non-root tip of an indexed tree"⟩ else ⟨.pass, "skip-dupnames" :: tags, ""⟩
     | _, _, _ => bad "C15.graft fields"
+  | "graftins", [dT, tipE, dG, gs, oc1, oc2, dA, wf] =>
+    -- two steps of the property in a row: graft, then identical tips next to tips of the result
+    match T.undump dT, unescape tipE, T.undump dG, parseStrLists gs with
+    | some t, some tip, some g, some groups =>
+      let valid := t.uniqueTips && (asGraft g).leaves.eraseDups.length == (asGraft g).leaves.length &&
+        disjoint (t.tipNames.erase tip) (graftLeaves g) && !(groups.flatten.contains "") &&
+        !((t.tipNames ++ graftLeaves g).contains "")
+      let tags := ["two-step"] ++ tagIf valid "uniq" ++ tagIf (groups.any fun gr => gr.any (graftLeaves g).contains) "next-to-grafted" ++
+        tagIf (groups.any (·.contains tip)) "next-to-replaced"
+      if panicked oc1 || panicked oc2 then ⟨.oracle, tags, "graft + insert identical panicked: " ++ oc1 ++ " " ++ oc2⟩
+      else if !valid then ⟨.pass, "skip-dupnames" :: tags, ""⟩
+      else match graft true t tip g with
+        | .error _ => if oc1 == "ok" then ⟨.tie, tags, "model rejects the graft"⟩ else ⟨.pass, "rejected" :: tags, ""⟩
+        | .ok m1 =>
+          if oc1 != "ok" then ⟨.oracle, tags, "graft refused at an existing non-root tip of an indexed tree"⟩ else
+          let (m2, merr) := insertIdentical true m1 groups
+          match merr, T.undump dA with
+          | none, some after =>
+            if wf != "" then ⟨.oracle, tags, "malformed heap after graft + insert identical: " ++ wf⟩
+            else if oc2 != "ok" then
+              ⟨.oracle, tags, "identical tips next to tips of the grafted tree were refused: the tips added by the graft are not the tips the tree answers for"⟩
+            else if !(insertOK m1 groups after) then
+              ⟨.oracle, tags, "after a graft, insert identical: tips, distances of pre-existing tips, or distance 0 to the model"⟩
+            else tie cli ("effective" :: tags) m2 after
+          | some _, some after =>
+            if oc2 == "ok" then
+              (if groups.any (·.contains tip) && !(graftLeaves g).contains tip then
+                 ⟨.oracle, tags, "a group naming the tip that the graft replaced was accepted: the tree still answers for a tip it no longer has"⟩
+               else ⟨.tie, tags, "model rejects the groups, implementation accepts"⟩)
+            else tie cli ("rejected" :: tags) m2 after
+          | _, none => bad "C15.graftins after dump"
+    | _, _, _, _ => bad "C15.graftins fields"
   | "merge", [i1, i2, dT, dT2, outcome, dA, wf, ia] =>
     match T.undump dT, T.undump dT2 with
     | some t, some t2 =>
       let valid := t.uniqueTips && t2.uniqueTips
       let m := merge (flag i1) (flag i2) t t2
       let tags := tagIf valid "uniq" ++ shapeTags t ++ tagIf (t.rooted && t2.rooted) "both-rooted" ++
-        tagIf (disjoint t.tipNames t2.tipNames) "disjoint" ++ tagIf (flag i1 && flag i2) "indexed"
+        tagIf (disjoint t.tipNames t2.tipNames) "disjoint" ++ tagIf (flag i1 && flag i2) "indexed" ++
+        tagIf (t2.tipNames.any (fun x => x != "" && (nodeNamesL t.kids).contains x && !t.tipNames.contains x) ||
+               t.tipNames.any (fun x => x != "" && (t2.name :: nodeNamesL t2.kids).contains x && !t2.tipNames.contains x)) "inner-label-is-other-tip" ++
+        tagIf (hasDup ((t2.nodeNames.filter (· != "")))) "dup-label-in-second" ++ tagIf (hasDup ((t.nodeNames.filter (· != "")))) "dup-label-in-first"
       if panicked outcome then ⟨.oracle, tags, "Merge panicked: " ++ outcome⟩
       else if outcome == "ok" then
         match T.undump dA with
@@ -172,7 +208,9 @@ def handleCore (cli : Bool) (op : String) (f : List String) : Verdict :=
       else match m with
         | .error _ =>
           if valid && dA != dT then ⟨.tie, tags, "the refused merge changed the tree"⟩ else ⟨.pass, "rejected" :: tags, ""⟩
-        | .ok _ => if valid then ⟨.tie, tags, "model accepts, implementation fails"⟩ else ⟨.pass, "skip-dupnames" :: tags, ""⟩
+        | .ok _ =>
+          -- "merging two rooted trees with disjoint tips": refusing such a pair violates the property itself
+          if valid then ⟨.oracle, tags, "merge refused two rooted, indexed trees with disjoint tips"⟩ else ⟨.pass, "skip-dupnames" :: tags, ""⟩
     | _, _ => bad "C15.merge fields"
   | "insid", [idx, dT, gs, outcome, dA, wf, ia] =>
     match T.undump dT, parseStrLists gs with
